@@ -38,6 +38,14 @@ type Case struct {
 	Path    string   `json:"path"`
 	Doc     string   `json:"doc,omitempty"`
 	History []string `json:"history,omitempty"`
+	Accept  *bool    `json:"reference_accepts,omitempty"` // part P: does the documented grammar accept the text
+	Want    []string `json:"reference_selection,omitempty"`
+	HasWant bool     `json:"has_reference_selection,omitempty"`
+}
+
+func pCase(pc pathCase, doc string, want []string, has bool) Case {
+	a := pc.Accept
+	return Case{Part: "P", Path: pc.Path, Doc: doc, Accept: &a, Want: want, HasWant: has}
 }
 
 func compact(b []byte) string {
@@ -208,26 +216,26 @@ func (r *runner) checkPath(pc pathCase, counted bool) (*gojson.Path, bool) {
 	var err error
 	w.Count("calls", 1)
 	if rec := wk.Guard(func() { p, err = gojson.CreatePath(pc.Path) }); rec != nil {
-		w.DivFine("create|panic:"+wk.PanicClass(rec), "create|"+pc.Path, counted, fmt.Sprint(rec), Case{Part: "P", Path: pc.Path})
+		w.DivFine("create|panic:"+wk.PanicClass(rec), "create|"+pc.Path, counted, fmt.Sprint(rec), pCase(pc, "", nil, false))
 		return nil, false
 	}
 	if err != nil {
 		if pc.Accept {
-			w.DivFine("create|rejects-reference-path|"+selKinds(pc.Path), "create|"+pc.Path, counted, "CreatePath: "+err.Error(), Case{Part: "P", Path: pc.Path})
+			w.DivFine("create|rejects-reference-path|"+selKinds(pc.Path), "create|"+pc.Path, counted, "CreatePath: "+err.Error(), pCase(pc, "", nil, false))
 		}
 		return nil, false
 	}
 	if !pc.Accept {
 		// the property: malformed path text is rejected with an error
 		w.Count("accepted_outside_reference_language", 1)
-		w.DivFine("create|accepts-malformed-path|"+malformedClass(pc.Path), "create|"+pc.Path, counted, "CreatePath accepts a text outside the documented grammar", Case{Part: "P", Path: pc.Path})
+		w.DivFine("create|accepts-malformed-path|"+malformedClass(pc.Path), "create|"+pc.Path, counted, "CreatePath accepts a text outside the documented grammar", pCase(pc, "", nil, false))
 		return p, false
 	}
 	for di, doc := range r.docs {
 		w.Count("calls", 2)
 		got, gerr, pan := extract(p, doc)
-		c := Case{Part: "P", Path: pc.Path, Doc: doc}
 		want := pc.Results[di]
+		c := pCase(pc, doc, want, true)
 		switch {
 		case pan != "":
 			w.DivFine("extract|panic:"+pan+"|"+selKinds(pc.Path), "extract|"+pc.Path+"|"+fmt.Sprint(di), counted, "panic", c)
@@ -331,7 +339,31 @@ func Run(job *wk.Job, w *wk.Worker) error {
 			return err
 		}
 		w.Begin(0, func() interface{} { return c })
-		pt, err := gojson.CreatePath(c.Path)
+		var pt *gojson.Path
+		var err error
+		if rec := wk.Guard(func() { pt, err = gojson.CreatePath(c.Path) }); rec != nil {
+			w.DivCase("create|panic:"+wk.PanicClass(rec), false, fmt.Sprint(rec), c)
+			return nil
+		}
+		if c.Accept != nil {
+			switch {
+			case err == nil && !*c.Accept:
+				w.DivCase("create|accepts-malformed-path|"+malformedClass(c.Path), false, "CreatePath accepts a text outside the documented grammar", c)
+				return nil
+			case err != nil && *c.Accept:
+				w.DivCase("create|rejects-reference-path", false, "CreatePath: "+err.Error(), c)
+				return nil
+			case err != nil:
+				return nil
+			}
+			if c.HasWant {
+				got, gerr, pan := extract(pt, c.Doc)
+				if pan != "" || (gerr != nil && len(c.Want) > 0) || (gerr == nil && !sameList(got, c.Want)) {
+					w.DivCase("extract|differs-from-reference", false, fmt.Sprintf("got %v (err %v, panic %q); reference %v", got, gerr, pan, c.Want), c)
+				}
+				return nil
+			}
+		}
 		if err != nil {
 			w.DivCase("create|rejects", false, err.Error(), c)
 			return nil
